@@ -29,7 +29,7 @@ const tTerm = "TestTermination"
 
 type Case struct {
 	Construct string `json:"construct"`
-	Source    string `json:"source"` // slice | endless | stalled | failing (GenerateParallel / Map / ProcessParallel: n good items, then one call fails while the others block on their context)
+	Source    string `json:"source"` // slice | endless | stalled | failing (GenerateParallel / Map / ProcessParallel: n good items, then one call fails while the others block on their context) | flaky (the same three in continue-on-error mode: n good calls, then every call fails at once and never looks at its context)
 	N         int    `json:"n"`
 	Cut       int    `json:"cut"`
 	Stop      string `json:"stop"` // exhaust | close | cancel | close-cancel | cancel-close | close-twice | close-while-blocked | abandon
@@ -94,11 +94,34 @@ func failingStep(ctx context.Context, c *Case, v int) error {
 	return ctx.Err()
 }
 
+var errFlaky = errors.New("c04: the source is down")
+
+// flakyStep is the user function of a "flaky" case (continue-on-error
+// mode): the first n calls succeed, every later call fails quickly and
+// never consults its context, like a poll of a source that is down.
+func flakyStep(c *Case, v int) error {
+	if v <= c.N {
+		vkit.Yield(c.Yield)
+		return nil
+	}
+	time.Sleep(50 * time.Microsecond)
+	return errFlaky
+}
+
 type pipeline struct {
 	outs   []*fun.Iterator[int]
 	ch     <-chan int    // BufferedChannel
 	worker fun.Worker    // ProcessParallel
 	seen   *atomic.Int64 // items handed to the ProcessParallel function
+}
+
+// inputs builds the operands of MergeIterators / Chain.
+func inputs(c *Case) []*fun.Iterator[int] {
+	srcs := make([]*fun.Iterator[int], c.Width)
+	for i := range srcs {
+		srcs[i] = source(c.Source, c.N/c.Width+1)
+	}
+	return srcs
 }
 
 func build(c *Case, ctx context.Context) *pipeline {
@@ -129,11 +152,19 @@ func build(c *Case, ctx context.Context) *pipeline {
 			one(fun.Map(source("endless", 0), func(ctx context.Context, v int) (int, error) { return v, failingStep(ctx, c, v) }, fun.WorkerGroupConfNumWorkers(w)))
 			break
 		}
+		if c.Source == "flaky" {
+			one(fun.Map(source("endless", 0), func(_ context.Context, v int) (int, error) { return v, flakyStep(c, v) }, fun.WorkerGroupConfNumWorkers(w), fun.WorkerGroupConfContinueOnError()))
+			break
+		}
 		one(fun.Map(src(), func(_ context.Context, v int) (int, error) { vkit.Yield(c.Yield); return v, nil }, fun.WorkerGroupConfNumWorkers(w)))
 	case "ProcessParallel":
 		p.seen = &atomic.Int64{}
 		if c.Source == "failing" {
 			p.worker = source("endless", 0).ProcessParallel(func(ctx context.Context, v int) error { p.seen.Add(1); return failingStep(ctx, c, v) }, fun.WorkerGroupConfNumWorkers(w))
+			break
+		}
+		if c.Source == "flaky" {
+			p.worker = source("endless", 0).ProcessParallel(func(_ context.Context, v int) error { p.seen.Add(1); return flakyStep(c, v) }, fun.WorkerGroupConfNumWorkers(w), fun.WorkerGroupConfContinueOnError())
 			break
 		}
 		p.worker = src().ProcessParallel(func(context.Context, int) error { p.seen.Add(1); vkit.Yield(c.Yield); return nil }, fun.WorkerGroupConfNumWorkers(w))
@@ -149,22 +180,20 @@ func build(c *Case, ctx context.Context) *pipeline {
 				return 0, ctx.Err()
 			case c.Source == "failing":
 				return v, failingStep(ctx, c, v)
+			case c.Source == "flaky":
+				return v, flakyStep(c, v)
 			}
 			return v, ctx.Err()
 		})
+		if c.Source == "flaky" {
+			one(gen.GenerateParallel(fun.WorkerGroupConfNumWorkers(w), fun.WorkerGroupConfContinueOnError()))
+			break
+		}
 		one(gen.GenerateParallel(fun.WorkerGroupConfNumWorkers(w)))
 	case "MergeIterators":
-		srcs := make([]*fun.Iterator[int], w)
-		for i := range srcs {
-			srcs[i] = source(c.Source, c.N/w+1)
-		}
-		one(fun.MergeIterators(srcs...))
+		one(fun.MergeIterators(inputs(c)...))
 	case "Chain":
-		srcs := make([]*fun.Iterator[int], w)
-		for i := range srcs {
-			srcs[i] = source(c.Source, c.N/w+1)
-		}
-		one(itertool.Chain(srcs...))
+		one(itertool.Chain(inputs(c)...))
 	case "MergeSlices":
 		one(itertool.MergeSlices(slices()...))
 	case "MergeSliceIterators":
@@ -425,6 +454,12 @@ func genCase(t *rapid.T) *Case {
 	}
 	c.Stop = rapid.SampledFrom(stops).Draw(t, "stop")
 	c.Expire = strings.Contains(c.Stop, "cancel") && rapid.IntRange(0, 2).Draw(t, "expire") == 0
+	switch c.Construct {
+	case "GenerateParallel", "Map", "ProcessParallel":
+		if c.Stop != "exhaust" && rapid.IntRange(0, 3).Draw(t, "flaky") == 0 {
+			c.Source = "flaky"
+		}
+	}
 	if c.Stop == "exhaust" {
 		c.Source = "slice"
 		switch c.Construct {
@@ -482,7 +517,7 @@ func TestTermination(t *testing.T) {
 				vkit.Fail(t, tTerm, "C04:"+c.Construct+"/"+k, *c, "%s (repetition %d)", why, i)
 			}
 		}
-		vkit.CaseN(tTerm, vkit.Hash(*c), n, (c.Cut > 0 && c.Cut < c.N) || c.Stop == "close-while-blocked" || c.Source == "failing", []string{"construct:" + c.Construct, "source:" + c.Source, "stop:" + c.Stop}, func() any { return *c })
+		vkit.CaseN(tTerm, vkit.Hash(*c), n, (c.Cut > 0 && c.Cut < c.N) || c.Stop == "close-while-blocked" || c.Source == "failing" || c.Source == "flaky", []string{"construct:" + c.Construct, "source:" + c.Source, "stop:" + c.Stop}, func() any { return *c })
 	})
 }
 
